@@ -221,7 +221,8 @@ func (f *FailoverOf[V]) Get(
 					"key", key)
 			}
 
-			if !f.config.FailHard && !errors.Is(err, ErrNotFound) {
+			// Stale value is available if it was refreshed (no error) or is too stale (expired error).
+			if !f.config.FailHard && (err == nil || errors.Is(err, ErrExpired)) {
 				return val, nil
 			}
 		}
